@@ -118,7 +118,17 @@ def run_row(case, ctx):
     y = case["y"] % ro.m.height
     with ctx.guard(("C10", "Row.clone", "exception"), case):
         t_before = ro.t.serialize()
-        row = ro.t.get_row(y, clone=bool(case["detached"]))
+        src = case.get("src", "get_row")
+        if src == "traverse":
+            row = list(ro.t.traverse())[y]
+        elif src == "rows":
+            row = ro.t.rows[y]
+        elif src == "get_rows":
+            row = ro.t.get_rows()[y]
+        else:
+            row = ro.t.get_row(y, clone=bool(case["detached"]))
+        if src != "get_row":
+            case = dict(case, detached=False)  # these getters may hand out the live row (known finding of C08): edit the clone only
         row.get_cell(0)
         list(row.traverse())  # warm the row cache
         c = row.clone
@@ -163,6 +173,25 @@ def run_row(case, ctx):
         if not case["detached"]:
             ctx.check(ro.t.serialize() == t_before, ("C10", "Row", "clone-of-live-row-aliases-table"),
                       "editing the clone of a live row changed the table", case)
+        # attach the clone to another table and keep editing it there: the table the original came from must not notice
+        if case.get("attach"):
+            from odfdo import Table
+
+            t2 = Table("U", width=2, height=2)
+            how = case["attach"]
+            back = t2.append_row(c) if how["via"] == "append_row" else (t2.set_row(0, c) if how["via"] == "set_row" else t2.insert_row(1, c))
+            back.repeated = how["r"]
+            back.set_value(0, "attached")
+            t2.get_values()
+            ctx.check(ro.t.serialize() == t_before, ("C10", "Row", "attached-clone-changes-source-xml"),
+                      "editing a clone attached to another table changed the XML of the table the original row came from", case)
+            ro.battery = "C01"
+            ro.final = True
+            sizes = (ro.t.size, ro.t.height, ro.t.width)
+            ctx.check(sizes == ((ro.m.width, ro.m.height), ro.m.height, ro.m.width), ("C10", "Row", "attached-clone-corrupts-source-table"),
+                      f"after row{('.clone' if True else '')} -> {how['via']} on another table -> repeated={how['r']}: the source table reports "
+                      f"{sizes}, its grid is {(ro.m.width, ro.m.height)}", case)
+            ro.check()
     ctx.nontrivial(case)
 
 
@@ -394,6 +423,9 @@ def run_shard(ctx):
     redit = st.fixed_dictionaries({"k": st.sampled_from(["set_value", "insert_cell", "delete_cell", "append_cell", "clear"]),
                                    "cls": COORD_CLS, "kx": st.integers(0, 20), "r": st.integers(1, 3)})
     rcases = st.fixed_dictionaries({"kind": st.just("row"), "spec": st_initial(()), "y": st.integers(0, 9), "detached": st.booleans(),
+                                    "src": st.sampled_from(["get_row", "get_row", "traverse", "rows", "get_rows"]),
+                                    "attach": st.one_of(st.none(), st.fixed_dictionaries({"via": st.sampled_from(["append_row", "set_row", "insert_row"]),
+                                                                                          "r": st.integers(2, 4)})),
                                     "edits": st.lists(st.tuples(side, redit), min_size=1, max_size=4)})
     pcases = st.fixed_dictionaries({"kind": st.just("paragraph"), "layout": paragen.st_layout(), "pk": st.sampled_from(["p", "h"]),
                                     "edits": st.lists(st.tuples(side, st.sampled_from(["append", "span", "bookmark", "replace", "clear", "style", "child"])),
@@ -409,8 +441,7 @@ def run_shard(ctx):
                 ctx.count("kind:" + case["kind"])
                 try:
                     run_case(case, ctx)
-                    if ctx.evaluations % 1501 == 0:
-                        ctx.sample(case)
+                    ctx.maybe_sample(case, 1501)
                 except Abandon:
                     pass
             return t
